@@ -1332,7 +1332,11 @@ def _run(ctx, drv, pdrv, workdir, t0):
         c, o, what = min(lst, key=lambda t: len(t[0].data))
         data, tested = c.data, 0
         dbg("finding %s: %d cases, smallest %d bytes (%s)" % (key, len(lst), len(c.data), c.id))
-        if key not in known and shrink_budget > 0 and key is not None and len(c.data) > 12 and not c.cls.startswith("use:"):
+        kept = [x for x in lst if x[0].cls == "kept-corpus"]
+        if kept:                      # an already minimised input from corpus/C05 reproduces it: use that one
+            c, o, what = min(kept, key=lambda t: len(t[0].data))
+            data = c.data
+        elif key not in known and shrink_budget > 0 and key is not None and len(c.data) > 12 and not c.cls.startswith("use:"):
             shrink_budget -= 1
             data, tested = shrink(drv, workdir, c, key, budget_rounds=16 if thorough else 10)
         replay = {"case": {"id": c.id, "class": c.cls, "meta": c.meta, "found_in_cases": len(lst), "shrink_runs": tested,
